@@ -83,4 +83,9 @@ theorem sPressureS0_zero_iff_jump (s : EOS) (ic : NohIC) (ρ x : ℝ) (hic : ic.
   rw [← core, Fin.forall_fin_two]
   simp only [C16.SPressureS0.F, epv_c16, epv_tree, epv_cond, epv_leaf, hρ, k0, k1, k3, if_true, if_false, Matrix.cons_val]
 
+/-- non-vacuity: the default planar problem ρ₀ = 1, u₀ = -1, P₀ = 0 with the ideal-gas (γ = 5/3) Noh state
+(ρ, P, e) = (4, 4/3, 1/2), front speed D = 1/3: the algebraic core is met -/
+example : (4 / 3 : ℝ) - (-1) ^ 2 * 1 - 4 / 3 / 4 * 1 = 0 ∧ (1 / 2 : ℝ) - 0 - 1 / 2 * (-1) ^ 2 = 0 := by
+  constructor <;> norm_num
+
 end EPV.C02
